@@ -324,6 +324,84 @@ def check_prog(prog, acc=None):
     return out
 
 
+def shape_programs():
+    """A fixed neighbourhood of shape-manipulating lowerings (they stamp annotations on helper intermediates)."""
+    import jax.numpy as jnp
+    from jax import lax
+
+    P = []
+    for gshape, dims in (((1, 5), (1, 2)), ((4, 1), (1, 2)), ((1, 1), (1, 2)), ((4, 5), (1, 2)), ((5,), (2,)), ((1,), (2,)), ((4,), (1,)), ((1, 4, 1), (0, 1, 2))):
+        P.append((f"broadcast_in_dim{gshape}->{dims}", (lambda x, g, _d=dims: x * lax.broadcast_in_dim(g, x.shape, _d) + 1.0), [("B", 4, 5), gshape]))
+    P.append(("broadcast_to_trailing", lambda x, g: x + jnp.broadcast_to(g, x.shape), [("B", 4, 5), (5,)]))
+    P.append(("expand_squeeze", lambda x, g: jnp.squeeze(jnp.expand_dims(x, 1) * g.reshape(1, 1, 1, 5), axis=1), [("B", 4, 5), (5,)]))
+    P.append(("reshape_merge_split", lambda x, g: jnp.reshape(jnp.reshape(x, (x.shape[0], 20)) * 2.0, (x.shape[0], 4, 5)) + g, [("B", 4, 5), (5,)]))
+    P.append(("transpose_slice", lambda x, g: jnp.transpose(x, (0, 2, 1))[:, 1:4, :2] * g[:2], [("B", 4, 5), (5,)]))
+    P.append(("concat_pad", lambda x, g: jnp.pad(jnp.concatenate([x, x * 2.0], axis=1), ((0, 0), (1, 0), (0, 2))) + 1.0, [("B", 4, 5), (5,)]))
+    P.append(("reduce_keepdims_bcast", lambda x, g: x - jnp.mean(x, axis=(1, 2), keepdims=True) + jnp.max(x, axis=2, keepdims=True), [("B", 4, 5), (5,)]))
+    P.append(("where_mask_bcast", lambda x, g: jnp.where(g > 0, x, -x) * jnp.where(x.sum(axis=2, keepdims=True) > 0, 1.0, 2.0), [("B", 4, 5), (5,)]))
+    P.append(("take_along", lambda x, g: jnp.take(x, jnp.array([0, 2, 1]), axis=1) + jnp.take_along_axis(x, jnp.argsort(x, axis=2), axis=2)[:, :3, :], [("B", 4, 5), (5,)]))
+    P.append(("tile_stack", lambda x, g: jnp.stack([jnp.tile(g, (2,))[:5] * x, x], axis=1).sum(axis=1), [("B", 4, 5), (5,)]))
+    P.append(("matmul_bcast_batch", lambda x, g: jnp.matmul(x, jnp.ones((5, 3), x.dtype)) + g[:3], [("B", 4, 5), (5,)]))
+    P.append(("cumsum_flip", lambda x, g: jnp.flip(jnp.cumsum(x, axis=1), axis=2) * g, [("B", 4, 5), (5,)]))
+    return P
+
+
+def check_shape_program(idx, acc=None):
+    import jax
+    from vf import jaxutil
+
+    name, fn, shapes = shape_programs()[idx]
+    specs = [jax.ShapeDtypeStruct(tuple(s), np.float32) for s in shapes]
+    case = {"kind": "shapeprog", "idx": idx, "name": name}
+    try:
+        model = jaxutil.to_onnx(fn, specs)
+    except Exception as e:
+        if acc:
+            acc.tally("status", "shapeprog_export_rejected")
+            acc.case()
+        return []
+    out = []
+    for b in (1, 2, 5):
+        rng = np.random.default_rng(b)
+        feeds = {f"in_{i}": rng.standard_normal(tuple(b if d == "B" else d for d in s)).astype(np.float32) for i, s in enumerate(shapes)}
+        res = check_model_feeds(model, feeds, {"layer": "shapeprog", "program": name.split("(")[0]}, dict(case, bindings=[b]), acc)
+        if not res:
+            continue
+        vs, nobs = res
+        if acc:
+            acc.case(key=("shapeprog", name, b), nontrivial=bool(nobs))
+        out += vs
+        if vs:
+            break
+    return out
+
+
+def check_graph_spec(spec, acc=None):
+    """Annotations of the *optimized* model of a generated ONNX graph must not contradict its runtime values."""
+    from vf import graphgen, onnxutil
+
+    model = graphgen.build_model(spec)
+    feeds = graphgen.make_feeds(spec)
+    try:
+        import onnx
+
+        onnx.checker.check_model(model, full_check=True)
+        opt = onnxutil.optimize_proto(model)
+    except Exception:
+        if acc:
+            acc.tally("status", "graph_invalid_or_optimizer_raised")
+            acc.case()
+        return []
+    fired = opt.SerializeToString() != model.SerializeToString()
+    res = check_model_feeds(opt, feeds, {"layer": "graph", "structure": "optimized_graph"}, {"kind": "graph", "spec": spec}, acc)
+    if not res:
+        return []
+    vs, nobs = res
+    if acc:
+        acc.case(key=("graph", digest(spec)), nontrivial=bool(nobs and fired))
+    return vs
+
+
 def list_ids(_):
     from vf import catalog
 
@@ -345,6 +423,8 @@ def plan(tier, seed):
         nsh, budget = 64, 1500
     shards = [{"kind": "catalog", "ids": ids[i::nsh], "budget_s": budget} for i in range(nsh)]
     shards += [{"kind": "generated", "shard": i, "seed": seed, "examples": 8 if tier == "quick" else 60} for i in range(8 if tier == "quick" else 32)]
+    shards += [{"kind": "graphs", "shard": i, "seed": seed, "examples": 120 if tier == "quick" else 900} for i in range(8 if tier == "quick" else 32)]
+    shards += [{"kind": "shapeprogs", "part": i, "parts": 4} for i in range(4)]
     return shards
 
 
@@ -370,6 +450,32 @@ def work(sh):
                 acc.samples.append({"catalog_id": cid, "bindings": [2, 3, 5]})
             for v in vs:
                 acc.violation(v["sig"], v["case"], v["detail"])
+    elif sh["kind"] == "shapeprogs":
+        n = len(shape_programs())
+        for idx in range(sh["part"], n, sh["parts"]):
+            vs = check_shape_program(idx, acc)
+            for v in vs:
+                acc.violation(v["sig"], v["case"], v["detail"])
+        acc.samples.append({"structure": "shape_program", "names": [p[0] for p in shape_programs()][sh["part"]::sh["parts"]][:4], "bindings": [1, 2, 5]})
+    elif sh["kind"] == "graphs":
+        import hypothesis
+        from hypothesis import HealthCheck, Phase, given, settings
+        from vf import graphgen
+
+        @hypothesis.seed(derive_seed(sh["seed"], "c08graphs", sh["shard"]))
+        @settings(max_examples=sh["examples"], deadline=None, database=None, suppress_health_check=list(HealthCheck),
+                  phases=[Phase.generate], report_multiple_bugs=False)
+        @given(graphgen.graph_specs())
+        def tg(spec):
+            if spec is None:
+                return
+            vs = check_graph_spec(spec, acc)
+            if not vs and len(acc.samples) < 1:
+                acc.samples.append({"structure": "optimized_graph", "nodes": [[nd["op"], nd["i"], nd["o"]] for nd in spec["nodes"]][:10]})
+            for v in vs:
+                acc.violation(v["sig"], v["case"], v["detail"])
+
+        tg()
     else:
         import hypothesis
         from hypothesis import HealthCheck, Phase, given, settings, strategies as st
@@ -397,4 +503,8 @@ def replay(case):
         return check_catalog(case["id"], None, bindings=tuple(case.get("bindings", (2, 3, 5))))
     if case["kind"] == "cf":
         return check_cf(case["body"], case["stacked"], None)
+    if case["kind"] == "graph":
+        return check_graph_spec(case["spec"], None)
+    if case["kind"] == "shapeprog":
+        return check_shape_program(case["idx"], None)
     return check_prog(case["prog"], None)
